@@ -38,3 +38,24 @@ Example ex_feedback_happened :
   | None => False
   end.
 Proof. vm_compute. repeat split; reflexivity. Qed.
+
+(* the consumer's discard arm: three rows, the middle one is not a URL.  It is reported at once (second in the
+   list of reports, before any seed has finished), takes no token and is never in the reactor's table; the run
+   ends with every row reported exactly once *)
+Definition ex_labels_discard : list label :=
+  [LInsert; LDiscard; LInsert] ++ through 7 ex_oracle3 ++ through 9 ex_oracle3.
+
+Example ex_discard :
+  match run (init 2 (Cfg 3 false false) [(7, 10, 0); (8, 30, 0); (9, 40, 0)]) [LInsert; LDiscard] with
+  | Some s => map row_id (p_src s) = [9] /\ p_table s = [7] /\ p_tokens s = 1%nat /\ flight_ids s = [7]
+              /\ p_finished s = [(8, dead_leaf 30 0)]
+  | None => False
+  end
+  /\ reports (init 2 (Cfg 3 false false) [(7, 10, 0); (8, 30, 0); (9, 40, 0)]) ex_labels_discard = [8; 7; 9]
+  /\ match run (init 2 (Cfg 3 false false) [(7, 10, 0); (8, 30, 0); (9, 40, 0)]) ex_labels_discard with
+     | Some s => p_src s = [] /\ p_table s = [] /\ p_tokens s = 0%nat /\ in_flight s = []
+                 /\ forallb (fun l => match step s l with None => true | Some _ => false end)
+                            [LInsert; LDiscard; LMove 0 8 null_oracle; LFin 8] = true
+     | None => False
+     end.
+Proof. vm_compute. repeat split; reflexivity. Qed.
